@@ -6,10 +6,16 @@
 //!   wf   structured well-formed UPDATE built field by field by `Gen` (the only
 //!        stream that can produce a violation); the full ordered event list is compared
 //!   mal  a well-formed PDU damaged by one mutation; only the ok/err class is compared
+//!   bgp / bmpd / bmpu / mrt  the same PDUs through the real ingress call sites
+//!        (`Processor::process_update`, `BmpState::process_msg` in Dumping / Updating,
+//!        `MrtInRunner::process_file`); the payloads handed to the gate are compared
 //! Case line: `<stream> <2|4> <hex PDU>`.
 //! Oracle (does not use the Lean model): an independent RFC 4271/4760 decoder
 //! written here (`reference`), cross-checked against the generator's own
-//! ground truth, compared with what the real code produced.
+//! ground truth, compared with what the real code produced. At the call sites the
+//! oracle applies RFC 4271 4.3 (`rfc43`): a prefix that one UPDATE both withdraws and
+//! announces yields its announcement and no withdrawal. The direct `wf` stream calls
+//! `explode_announcements` and `explode_withdrawals` itself and expects both lists whole.
 use std::time::Instant;
 
 use rotonda::payload::{RotondaRoute, Update};
@@ -315,6 +321,13 @@ fn reference(as4: bool, pdu: &[u8]) -> Result<Vec<Ev>, String> {
     Ok(ann)
 }
 
+/// RFC 4271 4.3 at an ingress call site: "A BGP speaker SHOULD treat an UPDATE message of this
+/// form as though the WITHDRAWN ROUTES do not contain the address prefix": the withdrawal of a
+/// (family, prefix) that the same UPDATE announces is not a route event.
+fn rfc43(es: &[Ev]) -> Vec<Ev> {
+    es.iter().filter(|w| w.announce || !es.iter().any(|a| a.announce && a.fam == w.fam && a.pfx == w.pfx)).cloned().collect()
+}
+
 /// Does any prefix field of the PDU (conventional or supported-family MP) carry non-zero pad bits?
 fn has_dirty_pad(pdu: &[u8]) -> bool {
     fn dirty(mut b: &[u8]) -> bool {
@@ -440,6 +453,9 @@ impl Gen {
         let as4 = self.rng.chance(2, 3);
         let mut tags = vec![];
         let dirty = self.rng.chance(1, 25);
+        // one UPDATE that withdraws what it announces (RFC 4271 4.3), same family and across
+        // the conventional / MP fields
+        let overlap = !dirty && self.rng.chance(1, 8);
         // which prefix-carrying fields exist
         let shape = self.rng.below(12);
         let (has_w, has_n, has_reach, has_unreach) = match shape {
@@ -454,6 +470,7 @@ impl Gen {
             10 => (true, false, false, true),
             _ => (self.rng.chance(1, 2), self.rng.chance(1, 2), self.rng.chance(1, 2), self.rng.chance(1, 2)),
         };
+        let (has_w, has_n, has_reach, has_unreach) = if overlap { match self.rng.below(4) { 0 => (true, true, false, false), 1 => (false, false, true, true), 2 => (true, false, true, false), _ => (true, true, true, true) } } else { (has_w, has_n, has_reach, has_unreach) };
         let big = self.rng.chance(1, 20);
         let maxp = if big { 60 } else { 6 };
         let mut wd = if has_w { self.pfxs(32, maxp) } else { vec![] };
@@ -467,15 +484,23 @@ impl Gen {
         let mut dirty_field = if dirty { self.rng.below(4) } else { 9 };
         let mut reach_truth: Vec<(&'static str, P)> = vec![];
         let mut unreach_truth: Vec<(&'static str, P)> = vec![];
+        let mut reach_family: Option<(u16, u8, Option<(&'static str, u8)>)> = None;
+        let mut overlapped = false;
         for (is_reach, want) in [(true, has_reach), (false, has_unreach)] {
             if !want { continue; }
-            let (afi, safi, fam): (u16, u8, Option<(&'static str, u8)>) = match self.rng.below(10) {
+            let mut pick = match self.rng.below(10) {
                 0 | 1 => (1, 1, Some(("4u", 32))),
                 2 | 3 => (1, 2, Some(("4m", 32))),
                 4 | 5 | 6 => (2, 1, Some(("6u", 128))),
                 7 | 8 => (2, 2, Some(("6m", 128))),
                 _ => { let (a, s) = *self.rng.pick(&[(1u16, 3u8), (1, 5), (1, 66), (1, 129), (2, 3), (2, 99), (3, 1), (3, 128), (25, 1), (16388, 71), (0, 0), (65535, 255)]); (a, s, None) }
             };
+            // overlap: mostly the family of the MP_REACH (sometimes the sibling SAFI: same prefix, no overlap);
+            // an MP_REACH that is to overlap conventional withdrawals is IPv4 unicast
+            if overlap && is_reach && !has_unreach && self.rng.chance(2, 3) { pick = (1, 1, Some(("4u", 32))); }
+            if overlap && !is_reach { if let Some(rf) = reach_family { if self.rng.chance(4, 5) { pick = rf; } else if let (a, s, Some((_, w))) = rf { let s2 = 3 - s; pick = (a, s2, Some((match (a, s2) { (1, 1) => "4u", (1, 2) => "4m", (2, 1) => "6u", _ => "6m" }, w))); } } }
+            if is_reach { reach_family = Some(pick); }
+            let (afi, safi, fam): (u16, u8, Option<(&'static str, u8)>) = pick;
             let mut v = afi.to_be_bytes().to_vec();
             v.push(safi);
             if is_reach {
@@ -486,6 +511,11 @@ impl Gen {
             match fam {
                 Some((name, width)) => {
                     let mut ps = self.pfxs(width, maxp);
+                    if overlap && !is_reach && !reach_truth.is_empty() {
+                        // withdraw (under this attribute's family) prefixes the MP_REACH announces
+                        if ps.is_empty() { ps.push(reach_truth[0].1.clone()); }
+                        for _ in 0..self.rng.range(1, 3) { let i = self.rng.below(ps.len() as u64) as usize; let j = self.rng.below(reach_truth.len() as u64) as usize; if reach_truth[j].1.len <= width { ps[i] = reach_truth[j].1.clone(); if reach_truth[j].0 == name { overlapped = true; } } }
+                    }
                     if dirty && !dirty_done && dirty_field == (if is_reach { 2 } else { 3 }) && !ps.is_empty() {
                         let i = self.rng.below(ps.len() as u64) as usize; ps[i] = self.pfx(width, true); dirty_done = true;
                     }
@@ -498,6 +528,13 @@ impl Gen {
             let a = self.flagged(0x80, if is_reach { 14 } else { 15 }, v);
             let pos = self.rng.below(attrs.len() as u64 + 1) as usize;
             attrs.insert(pos, a);
+        }
+        if overlap && !wd.is_empty() {
+            // conventional withdrawals of prefixes announced conventionally or in an IPv4 MP_REACH
+            let cands: Vec<(&'static str, P)> = nlri.iter().map(|p| ("4u", p.clone())).chain(reach_truth.iter().filter(|(_, p)| p.len <= 32).cloned()).collect();
+            if !cands.is_empty() {
+                for _ in 0..self.rng.range(1, 3) { let i = self.rng.below(wd.len() as u64) as usize; let (f, p) = self.rng.pick(&cands).clone(); wd[i] = p; if f == "4u" { overlapped = true; } }
+            }
         }
         if dirty && !dirty_done {
             if dirty_field >= 2 { dirty_field = self.rng.below(2); }
@@ -527,6 +564,7 @@ impl Gen {
         if attrs.iter().any(|a| a.value.len() > 255) { tags.push("attr.extlen_long_value"); }
         if truth.is_empty() { tags.push("no_routes(eor_or_unsupported_only)"); }
         if dirty_final { tags.push("dirty_pad_bits"); }
+        if overlapped && rfc43(&truth).len() != truth.len() { tags.push("overlap.withdrawn_and_announced"); }
         Built { as4, pdu, truth, dirty: dirty_final, tags }
     }
 
@@ -611,19 +649,28 @@ fn finish_wf_case(rec: &mut Recorder, path: Path, as4: bool, pdu: &[u8], truth: 
     let oracle = match (&exp, truth) {
         (Err(e), _) => format!("fail engine-selfcheck the reference decoder rejects a PDU of the well-formed stream: {e}"),
         (Ok(r), Some(t)) if r.as_slice() != t => format!("fail engine-selfcheck reference decoder and generator ground truth disagree: {}", describe_diff(t, r)),
-        (Ok(r), _) => match &got {
-            // the property speaks of *which* events are derived; their order is compared by the
-            // correspondence with the model, not judged here
-            Ok(es) if sorted_events(es) == sorted_events(r) => "ok".to_string(),
-            Ok(es) if es.is_empty() && path == Path::BmpDumping && looks_like_eor_to_routecore(pdu) =>
-                format!("fail bmp-dumping:update-taken-for-end-of-rib {} route event(s) of a well-formed UPDATE lost: is_eor() is true for it and no End-of-RIB was pending", r.len()),
-            Ok(es) if path == Path::Mrt && !as4 && sorted_events(&es.iter().cloned().map(|mut e| { e.as4 = false; e }).collect::<Vec<_>>()) == sorted_events(r) =>
-                "fail mrt:two-octet-as-record-tagged-four-octet the attribute maps of a BGP4MP_MESSAGE (2-octet AS) record are tagged 4-octet-AS, so AS_PATH / AGGREGATOR read back wrongly".to_string(),
-            Ok(es) => format!("fail events-mismatch {}", describe_diff(&sorted_events(r), &sorted_events(es))),
-            Err(stage) if has_dirty_pad(pdu) && *stage != "panic" && !stage.starts_with("stored") && !stage.starts_with("setup") =>
-                format!("fail padbits:nonzero-trailing-bits-update-rejected {} failed; {} route event(s) of a well-formed UPDATE lost", stage, r.len()),
-            Err(stage) => format!("fail update-rejected:{} {} route event(s) of a well-formed UPDATE lost", stage, r.len()),
-        },
+        (Ok(raw), _) => {
+            // what the property demands: the two explode functions on their own yield every
+            // listed prefix; an ingress call site additionally applies RFC 4271 4.3
+            let r = &if path == Path::Direct { raw.clone() } else { rfc43(raw) };
+            let overlapping = r.len() != raw.len();
+            let as2 = |es: &[Ev]| sorted_events(&es.iter().cloned().map(|mut e| { e.as4 = false; e }).collect::<Vec<_>>());
+            match &got {
+                // the property speaks of *which* events are derived; their order is compared by the
+                // correspondence with the model, not judged here
+                Ok(es) if sorted_events(es) == sorted_events(r) => "ok".to_string(),
+                Ok(es) if es.is_empty() && path == Path::BmpDumping && looks_like_eor_to_routecore(pdu) =>
+                    format!("fail bmp-dumping:update-taken-for-end-of-rib {} route event(s) of a well-formed UPDATE lost: is_eor() is true for it and no End-of-RIB was pending", r.len()),
+                Ok(es) if overlapping && (sorted_events(es) == sorted_events(raw) || (path == Path::Mrt && !as4 && as2(es) == sorted_events(raw))) =>
+                    format!("fail overlap:withdrawal-kept-after-announcement-of-same-update {} prefix(es) that this UPDATE both withdraws and announces left the call site as an announcement followed by a withdrawal (RFC 4271 4.3: as though not withdrawn)", raw.len() - r.len()),
+                Ok(es) if path == Path::Mrt && !as4 && as2(es) == sorted_events(r) =>
+                    "fail mrt:two-octet-as-record-tagged-four-octet the attribute maps of a BGP4MP_MESSAGE (2-octet AS) record are tagged 4-octet-AS, so AS_PATH / AGGREGATOR read back wrongly".to_string(),
+                Ok(es) => format!("fail events-mismatch {}", describe_diff(&sorted_events(r), &sorted_events(es))),
+                Err(stage) if has_dirty_pad(pdu) && *stage != "panic" && !stage.starts_with("stored") && !stage.starts_with("setup") =>
+                    format!("fail padbits:nonzero-trailing-bits-update-rejected {} failed; {} route event(s) of a well-formed UPDATE lost", stage, r.len()),
+                Err(stage) => format!("fail update-rejected:{} {} route event(s) of a well-formed UPDATE lost", stage, r.len()),
+            }
+        }
     };
     let nontrivial = exp.as_ref().map(|r| !r.is_empty()).unwrap_or(false);
     rec.case(format!("{} {} {}", path.tag(), if as4 { 4 } else { 2 }, hex(pdu)), imp, oracle, nontrivial);
@@ -663,7 +710,32 @@ fn corpus() -> Vec<(bool, Vec<u8>)> {
     // unsupported family in MP_REACH next to conventional NLRI
     let mut at = base.clone(); at.push(a(0x80, 14, &[0, 1, 66, 2, 9, 9, 0, 1, 2, 3, 4, 5]));
     out.push((true, enc_pdu(&[p(24, &[198, 51, 100])], &at, &[p(24, &[203, 0, 113])])));
+    // RFC 4271 4.3 shapes: withdrawn and announced in one UPDATE
+    out.push(witness_overlap());
+    // ... some of several, a duplicate withdrawal, a withdrawal of something else kept
+    out.push((false, enc_pdu(&[p(24, &[203, 0, 113]), p(8, &[10]), p(24, &[203, 0, 113]), p(16, &[192, 168])], &base, &[p(16, &[192, 168]), p(24, &[203, 0, 113]), p(0, &[])])));
+    // ... MP_REACH + MP_UNREACH of one IPv6 prefix (and one more of each)
+    let mut r = vec![0, 2, 1, 16]; r.extend([0x20; 16]); r.push(0); r.extend(enc_pfxs(&[p(48, &[0x20, 1, 0xd, 0xb8, 0, 1]), p(32, &[0x20, 1, 0xd, 0xb8])]));
+    let mut u = vec![0, 2, 1]; u.extend(enc_pfxs(&[p(64, &[0x20, 1, 0xd, 0xb8, 0, 2, 0, 0]), p(48, &[0x20, 1, 0xd, 0xb8, 0, 1])]));
+    let mut at = base.clone(); at.push(a(0x90, 14, &r)); at.push(a(0x90, 15, &u));
+    out.push((true, enc_pdu(&[], &at, &[])));
+    // ... IPv4 unicast MP_REACH vs conventional withdrawal (same family: overlap), and conventional NLRI vs MP_UNREACH
+    let mut r = vec![0, 1, 1, 4, 10, 0, 0, 1, 0]; r.extend(enc_pfxs(&[p(24, &[203, 0, 113])]));
+    let mut u = vec![0, 1, 1]; u.extend(enc_pfxs(&[p(24, &[198, 51, 100])]));
+    let mut at = base.clone(); at.push(a(0x80, 14, &r)); at.push(a(0x80, 15, &u));
+    out.push((true, enc_pdu(&[p(24, &[203, 0, 113])], &at, &[p(24, &[198, 51, 100])])));
+    // ... same prefix under the sibling SAFI (multicast announced, unicast withdrawn): NOT the same NLRI, both stay
+    let mut r = vec![0, 1, 2, 4, 10, 0, 0, 1, 0]; r.extend(enc_pfxs(&[p(24, &[203, 0, 113])]));
+    let mut at = base.clone(); at.push(a(0x80, 14, &r));
+    out.push((true, enc_pdu(&[p(24, &[203, 0, 113])], &at, &[])));
     out
+}
+
+/// The witness of `C04_caller_counterexample`: 203.0.113.0/24 in WITHDRAWN ROUTES and in NLRI of one UPDATE.
+fn witness_overlap() -> (bool, Vec<u8>) {
+    let a = |flags: u8, code: u8, value: &[u8]| A { flags, code, value: value.to_vec() };
+    let p = P { len: 24, addr: vec![203, 0, 113] };
+    (true, enc_pdu(&[p.clone()], &[a(0x40, 1, &[0]), a(0x40, 2, &[]), a(0x40, 3, &[10, 0, 0, 1])], &[p]))
 }
 
 /// The witness of `C04_counterexample`: 10.0.0.0/7 announced with the pad bit set (byte 0x0b).
@@ -718,6 +790,9 @@ fn main() {
     let (as4, w) = witness_mrt_as2();
     let r = wf_case(&mut rec, &mut cx, Path::Mrt, as4, &w, None);
     rec.variant("mrtas", if matches!(&r, Ok(es) if es.iter().all(|e| e.as4)) { "as-written" } else { "repaired" });
+    let (as4, w) = witness_overlap();
+    let r = wf_case(&mut rec, &mut cx, Path::Bgp, as4, &w, None);
+    rec.variant("overlap", if matches!(&r, Ok(es) if es.iter().any(|e| !e.announce)) { "as-written" } else { "repaired" });
     for (as4, pdu) in corpus() {
         for path in [Path::Direct, Path::Bgp, Path::BmpDumping, Path::BmpUpdating, Path::Mrt] { let _ = wf_case(&mut rec, &mut cx, path, as4, &pdu, None); rec.bump("corpus"); }
     }
